@@ -102,6 +102,13 @@ CLAIMS["C18"] = (
     "DESIGN.md §3 C18",
 )
 
+CLAIMS["C02"] = (
+    "flag-table reader + constant effect summaries of ~280 flag-parser closures (go/ssa, helper calls followed) compared as store sets, with an option-consumer analysis (which reader/writer constructor reaches a load of which option field) to argue differences unobservable; AST/constant readers for the format factories, default-separator tables, separator aliases; path enumeration of the flatten decision functions",
+    "Decides the clause 'every keystroke-saver, -i/-o/--io form and named separator is equivalent to its documented expansion' exhaustively over cli.FLAG_TABLE: each --X2Y / input-and-output / documented keystroke-saver flag has the same effect on the options as the flags it expands to, up to differences that no earlier option state can make observable (argued per difference and listed in the evidence); -i K/-o K/--io K against --iK/--oK/--K; argument cursor and argument-count check per parser; stored format names are factory labels with default separators; factory label builds its own family; aliases equal the documented table; auto-flatten/unflatten truth table. It does not decide A→B→A identities on data, nor the flatten/unflatten inverse laws (seeded change C02-1 is not caught).",
+    "Trusts go/ssa, the model of finalisation (a separator ends as its stored value if its wasSpecified mark is set, else the per-format default — read from FinalizeReaderOptions/FinalizeWriterOptions by hand and frozen in checker/optuse.go:wasSpecifiedBase), and the help texts as the statement of each flag's expansion. Nine -i/-o/--io deviations are known findings.",
+    "DESIGN.md §3 C02",
+)
+
 NOT_APPLICABLE = {
     "C13": "Join pairing, ordering and unpaired accounting are relational identities over run-time key values and bucket contents; no clause is a shape fact visible to static analysis (the shared protocol facts are reported under C04/C10/C17).",
 }
